@@ -292,6 +292,18 @@ theorem streamLoop_good {N : Nat} (valid : Bool) (k : Bytes) (remaining : Nat) :
             rename_i r3 hr3
             exact (ih _ _ r3 (by omega) (by omega)).mono (by omega)
 
+theorem loadPlainList_good {N : Nat} (valid : Bool) (db : Db) (k : Bytes) (dl : Option Nat) (n : Nat) (bs : Bytes)
+    (hN : bs.length ≤ N) : Good N (loadPlainList valid db k dl n bs) bs.length := by
+  unfold loadPlainList
+  split
+  · rd (readString_good bs hN)
+    eng (rpush_nofuel _ _ _ _)
+    rd (readStrings_good _ _ (by omega))
+    eng (expireOpt_nofuel _ _ _ _)
+    exact good_ok _ _ _ (by omega)
+  · eng (expireOpt_nofuel _ _ _ _)
+    exact good_ok _ _ _ (by omega)
+
 theorem loadTyped_good {N : Nat} (fix : Fix) (valid : Bool) (db : Db) (ty : Nat) (dl : Option Nat) (bs : Bytes)
     (hN : bs.length ≤ N) : Good N (loadTyped fix valid db ty dl bs) bs.length := by
   unfold loadTyped
@@ -323,10 +335,13 @@ theorem loadTyped_good {N : Nat} (fix : Fix) (valid : Bool) (db : Db) (ty : Nat)
             rd (streamLoop_good _ _ _ _ _ _ r2' (Nat.lt_succ_self _) (by omega))
             eng (expireOpt_nofuel _ _ _ _)
             exact good_ok _ _ _ (by omega)
-          · eng (rpush_nofuel _ _ _ _)
-            rd (readStrings_good _ _ (by omega))
-            eng (expireOpt_nofuel _ _ _ _)
-            exact good_ok _ _ _ (by omega)
+          · split
+            · rename_i r2 hr2 _ _
+              exact (loadPlainList_good _ _ _ _ _ r2 (by omega)).mono (by omega)
+            · eng (rpush_nofuel _ _ _ _)
+              rd (readStrings_good _ _ (by omega))
+              eng (expireOpt_nofuel _ _ _ _)
+              exact good_ok _ _ _ (by omega)
         · eng (expireOpt_nofuel _ _ _ _)
           exact good_ok _ _ _ (by omega)
       · split
